@@ -18,7 +18,7 @@ RULE = (
     "dyadic rationals, as float64 / int64 / int64 beyond 2**53, eager and jitted: the flat index must be the FIRST unmasked position attaining the masked "
     "maximum (0 if all masked) and the returned maximum must equal the NumPy masked maximum exactly. (b) the same "
     "with the array and mask COMPUTED INSIDE the same jitted, vmap_1d(productmap(...)) computation from generated "
-    "smooth expressions (the situation in the simulation): index in range, unmasked, a[idx] >= max - 1e-12*scale, "
+    "smooth expressions (the situation in the simulation; lanes in which a combination lies on the knife edge of the mask expression, |margin| <= 1e-9, are not judged): index in range, unmasked, a[idx] >= max - 1e-12*scale, "
     "returned max == max (1e-12). (c) segment_argmax(data, sorted non-empty segments) rank 1-3, eager/jit and "
     "fused: the returned row lies in the segment and attains the segment maximum (1 case in 4 contains segments that are -inf throughout). (d) "
     "get_solve_discrete_problem(NONE) on generated variable_info frames: equals the brute-force maximum over all "
@@ -226,9 +226,19 @@ def check_b(case):
         kw["c2"] = jnp.asarray(_grid(case["c2"], False))
     idx, mx, u, f = (np.asarray(x) for x in call_lcm(fn, **kw))
     msgs, nt = [], False
+    # feasibility margins in NumPy: a lane in which some combination lies on the knife edge of the
+    # constraint (|margin| at rounding level) has no well-defined mask - XLA may evaluate the fused
+    # mask expression twice with different rounding - and is not judged
+    g1 = _grid(case["c1"], case["c1_log"])
+    g2 = _grid(case["c2"], False) if two else np.array([1.0])
+    C1, C2 = np.meshgrid(g1, g2, indexing="ij")
     for i in range(len(case["w"])):
         ui, fi = u[i].reshape(-1), f[i].reshape(-1)
         if not np.isfinite(ui).all():
+            continue
+        w_i = float(case["w"][i])
+        mar = eval(margin, {"xp": np, "w": w_i, "c1": C1, "c2": C2, "p": case["p"]})  # noqa: S307
+        if np.abs(np.asarray(mar, dtype=float)).min() <= 1e-9 * max(1.0, abs(w_i), float(np.abs(C1).max()), float(np.abs(C2).max())):
             continue
         j = int(idx[i])
         if not (0 <= j < ui.size):
